@@ -300,6 +300,14 @@ def run_check(prop, tier, seed, replay=None):
         exit_code = 1
 
     # 7. evidence
+    try:
+        from harness import climain
+        if sum(climain.STATS.values()):
+            notes.append("generators built through the real main(argv): %(built)d built, %(refused)d refused by the "
+                         "command line (then constructed directly), %(no_spelling)d without a command-line spelling"
+                         % climain.STATS)
+    except Exception:  # noqa
+        pass
     ev = {
         "property_id": prop.id, "tier": tier, "seed": seed, "level": "proof",
         "coverage": {
